@@ -9,10 +9,9 @@ import os, subprocess
 from vlib.runner import Ob, REPO, VERIF
 
 # service -> (id, scanning, line, payload bits, signal start us (for the offset grid))
-SVCS = {
-    "ttx_b": (0x3, 625, 7, 336), "ttx_b_f2": (0x3, 625, 320, 336), "ttx_a": (0x1, 625, 7, 296), "ttx_c_625": (0x4, 625, 8, 264),
-    "ttx_d_625": (0x8000, 625, 9, 272),
-    "vps": (0x400, 625, 16, 104), "wss": (0x4000, 625, 23, 14), "cc_625": (0x8, 625, 22, 16), "cc_625_f2": (0x10, 625, 335, 16),
+SVCS = {   # ids: src/sliced.h
+    "ttx_b": (0x3, 625, 7, 336), "ttx_b_f2": (0x3, 625, 320, 336), "ttx_a": (0x2000, 625, 7, 296), "ttx_c_625": (0x4000, 625, 8, 264),
+    "vps": (0x4, 625, 16, 104), "wss": (0x400, 625, 23, 14), "cc_625": (0x8, 625, 22, 16), "cc_625_f2": (0x10, 625, 335, 16),
     "cc_525": (0x20, 525, 21, 16), "cc_525_f2": (0x40, 525, 284, 16),
     "ttx_b_525": (0x10000, 525, 15, 272), "ttx_c_525": (0x100, 525, 15, 264), "ttx_d_525": (0x20000, 525, 15, 272),
 }
@@ -93,6 +92,7 @@ def obligations(tier, seed):
                 bounds="all payloads of one line; (service, sampling rate, samples per line, offset, pixel format) enumerated on the grid - rate/offset "
                        "are sampled, not proved; one service requested at a time; strict = 0; %d samples per line, format %s" % (spl, pix),
                 outside="noise, non-nominal amplitude, rates/offsets between grid points, several services on one frame, more than two rows, "
+                        "Teletext D 625 (needs lines sampled beyond 63 us), 2xCaption, "
                         "the legacy vbi_raw_decode wrapper (mutex + the same vbi3 decoder)",
                 stubs=["models/c04_gen.c: waveform tables T[i][<= 2 payload bits] derived from the real generator as a black box, cross-checked on 260 payloads"],
                 # the image array must be field sensitive so that the CRI search runs on the constant run-in samples
@@ -102,8 +102,56 @@ def obligations(tier, seed):
         return ob
 
     q = [wave_gp("ttx_b", 13500000, 720, 9.7), wave_gp("vps", 13500000, 720, 9.7), wave_gp("cc_525", 13500000, 720, 9.0)]
-    t = q + [wave_gp(s, 13500000, 720, o) for s, o in (("ttx_b_f2", 9.7), ("ttx_a", 9.7), ("ttx_c_625", 9.7), ("ttx_d_625", 9.7), ("wss", 9.7),
+    t = q + [wave_gp(s, 13500000, 720, o) for s, o in (("ttx_b_f2", 9.7), ("ttx_a", 9.7), ("ttx_c_625", 9.7), ("wss", 9.7),
                                                       ("cc_625", 9.7), ("cc_625_f2", 9.7), ("cc_525_f2", 9.0), ("ttx_b_525", 9.0),
                                                       ("ttx_c_525", 9.0), ("ttx_d_525", 9.0), ("ttx_b", 8.5), ("ttx_b", 10.2), ("vps", 11.0))]
     obs.append(wave_ob("wave_y8_13m5", "Y8", 720, t, q))
+    # other pixel formats (chroma / red / blue / alpha arbitrary) and sampling rates: thorough
+    for pix in ("YUYV", "RGB24", "RGB16_LE"):
+        obs.append(wave_ob("wave_%s_13m5" % pix.lower(), pix, 720,
+                           [wave_gp("ttx_b", 13500000, 720, 9.7, pix), wave_gp("vps", 13500000, 720, 9.7, pix),
+                            wave_gp("cc_525", 13500000, 720, 9.0, pix)], None, tier_="thorough", timeout=1800))
+    obs.append(wave_ob("wave_y8_14m75", "Y8", 768, [wave_gp(s_, 14750000, 768, 9.5) for s_ in ("ttx_b", "vps", "wss", "cc_625")], None,
+                       tier_="thorough", timeout=1800))
+    obs.append(wave_ob("wave_y8_27m", "Y8", 1440, [wave_gp(s_, 27000000, 1440, 9.7) for s_ in ("ttx_b", "vps")], None,
+                       tier_="thorough", timeout=2400))
+
+    # ---- line numbers / pattern table (solver over configurations) ------------------------------------------
+    KN = {} if os.environ.get("VERIF_C04_STRICT") == "1" else {"KNOWN_LINES_NO_OVERLAP": 1}
+    UP = ["src/sampling_par.c", "src/misc.c"]
+    stub = ["models/c05_slicer_stub.h: bit slicer interface replaced by its contract (not exercised by these obligations except set_params in none)"]
+    obs.append(Ob("lines_containing_data", harness="h_c04.c", func="h_lines", unwind=22, defines=KN,
+                  desc="lines_containing_data with symbolic sampling parameters accepted by _vbi3_raw_decoder_init (scanning, format, rate, offset, both start "
+                       "lines, synchronous flag) and any row of the REAL service table: the two row ranges lie inside the rows of their field, and (line numbers "
+                       "known) a row is selected iff its ITU-R line is inside the service's first..last range of that field"
+                       + ("" if not KN else " [KNOWN_LINES_NO_OVERLAP: or the service's range misses every sampled line of the field, then all rows are kept]"),
+                  encodes=["lines_containing_data", "_vbi3_raw_decoder_init", "_vbi_sampling_par_valid_log", "_vbi_service_table"],
+                  bounds="line counts (count[0], count[1]) on the grid 1..3; everything else symbolic",
+                  assumes=list(KN), stubs=stub, grid=[dict(C0=a, C1=b) for a in (1, 2, 3) for b in (1, 2, 3)],
+                  quick_grid=[dict(C0=2, C1=2), dict(C0=1, C1=3)], reach=["end", "called"], timeout=300, mem_gb=3, vin_size=64, units=UP, solver="cadical"))
+    gj = []
+    for (c0, c1) in ((1, 1), (2, 1), (1, 2)):
+        for n0 in range(c0 + 1):
+            for s0 in range(c0 - n0 + 1):
+                for n1 in range(c1 + 1):
+                    for s1 in range(c0, c0 + c1 - n1 + 1):
+                        if n0 == 0 and s0 > 0 or n1 == 0 and s1 > c0:
+                            continue
+                        gj.append(dict(C0=c0, C1=c1, S0=s0, N0=n0, S1=s1, N1=n1))
+    obs.append(Ob("add_job_to_pattern", harness="h_c04.c", func="h_add_job", unwind=8 * 3 + 4, defines=KN,
+                  desc="INV-STEP: add_job_to_pattern on an ARBITRARY pattern table satisfying the representation invariant (entries <= n_jobs; first or last "
+                       "way of every row is not a job), any job number, row ranges as produced by lines_containing_data: invariant preserved on success AND "
+                       "on the out-of-space failure path, the job is present in every row of the ranges, rows outside are untouched, no other job is dropped",
+                  encodes=["add_job_to_pattern"], bounds="2..3 rows, row ranges enumerated on the grid, table content / job number / n_jobs symbolic",
+                  assumes=["st_pat_inv (initial: zero table; preserved: this obligation, remove_job_from_pattern, C05 decode_out)"], stubs=stub,
+                  grid=gj, quick_grid=[dict(C0=1, C1=1, S0=0, N0=1, S1=1, N1=1), dict(C0=2, C1=1, S0=1, N0=1, S1=2, N1=0)],
+                  reach=["end", "added", "no_space"], timeout=300, mem_gb=3, vin_size=64, units=UP, solver="cadical"))
+    obs.append(Ob("remove_job_from_pattern", harness="h_c04.c", func="h_remove_job", unwind=20, defines=dict(KN, C0=1, C1=0),
+                  desc="INV-STEP: remove_job_from_pattern on an arbitrary pattern row satisfying the invariant: invariant preserved for one job less, the job is "
+                       "gone, higher jobs renumbered, order of the others kept, row zero filled",
+                  encodes=["remove_job_from_pattern"],
+                  bounds="one row (the function treats rows independently; with two rows CBMC does not reset the inner loop's unwind counter between rows "
+                         "and reports a spurious unwinding failure)",
+                  outside="job array compaction in vbi3_raw_decoder_remove_services (path dependent memmove length: 174 s, 6.4 GB, killed)",
+                  assumes=["st_pat_inv"], stubs=stub, reach=["end", "called"], timeout=120, mem_gb=2, vin_size=64, units=UP, solver="cadical"))
     return obs
